@@ -144,6 +144,12 @@ def main():
     # ---- replays / output --------------------------------------------------------------------
     rdir = os.path.join(VERIF, "replays", prop)
     lines = []
+    if not a.replay and os.path.exists(os.path.join(rdir, "_all.json")):
+        os.unlink(os.path.join(rdir, "_all.json"))
+    if violations and not a.replay:
+        os.makedirs(rdir, exist_ok=True)
+        with open(os.path.join(rdir, "_all.json"), "w") as f:
+            f.write(jdump(violations))
     for v in violations[:25]:
         os.makedirs(rdir, exist_ok=True)
         path = os.path.join(rdir, case_hash(v["case"]) + ".json")
